@@ -1,3 +1,4 @@
 //! Decoders: bytes (choice source) -> AST. One function family per generator family.
+pub mod search;
 pub mod terms;
 pub mod tree;
